@@ -290,6 +290,19 @@ def _ob_alias(wi: int, ai: int) -> bool:
     return True
 
 
+# ---------------------------------------------------------------------------
+# 4. two live wrappers of one link list stay the same list when it is emptied
+#    through one of them and refilled through either        PART = list kind
+# ---------------------------------------------------------------------------
+def _ob_two_wrappers(k1: int, k2: int, via_other: bool) -> bool:
+    """
+    pre: 0 <= k1 < 2 and 0 <= k2 < 2
+    post: __return__
+    """
+    import harness.c03 as c03
+    return c03._empty_refill(PART, PATH, k1, k2, via_other)
+
+
 def validate():
     return {"fakeh5_vs_h5py": fakeh5.validate_against_h5py()}
 
@@ -340,6 +353,11 @@ OBLIGATIONS = [
                   "nixio.dimensions.RangeDimension.unit", "nixio.dimensions.SetDimension.labels"],
        replay=lambda a: _real("_ob_dim_link", a),
        outside="links to data frames; linked arrays of rank > 2"),
+    Ob("two_wrappers_of_one_list", _ob_two_wrappers, timeout=600,
+       partition=["group.data_arrays", "tag.references", "data_array.sources"],
+       functions=["nixio.container.LinkContainer.append", "nixio.container.LinkContainer.__delitem__",
+                  "nixio.hdf5.h5group.H5Group.delete", "nixio.hdf5.h5group.H5Group._create_h5obj"],
+       replay=lambda a: _real("_ob_two_wrappers", a)),
     Ob("one_object_behind_every_path", _ob_alias, timeout=900,
        partition=["data_array", "source", "section", "tag"],
        functions=["nixio.hdf5.h5group.H5Group.create_link", "nixio.container.LinkContainer.__getitem__",
